@@ -19,6 +19,11 @@ if kind == 'span':
         if msgs:
             break
     res.update({'observed': out, 'oracle': msgs[:3], 'recorded': rp.get('msg'), 'fails': bool(msgs)})
+elif kind == 'span-args':
+    c = rp['case']
+    a = [[unkey(k) for k in row] for row in c['a']]
+    bad = c13.args_check(a, [unkey(k) for k in c['lb']], [unkey(k) for k in c['ub']], c['dtype'])
+    res.update({'oracle': bad, 'recorded': c['oracle'], 'fails': bool(bad)})
 elif kind == 'space':
     c = rp['case']
     raw = [[[unkey(k) for k in row] for row in p] for p in c['raw']]
